@@ -72,9 +72,16 @@ def run_case(case, tier):
     res = {"fingerprint": K.fingerprint(case["text"], goals, case["params"], case["inits"]),
            "features": case.get("features", []), "events": {}, "violations": [], "comparisons": 0, "refusals": []}
     eng_out = []
+    import time
+    t_start = time.time()
+    budget = TIMEOUT[tier] * 0.85   # per-case time box: goals that do not fit are skipped, the compared ones still count
     try:
-        table = K.oracle_moments(prog, params, inits, goals, N, max_states=20000 if tier == "quick" else 100000,
-                                 engine_out=eng_out)
+        with K.soft_timeout(budget * 0.4):
+            table = K.oracle_moments(prog, params, inits, goals, N, max_states=20000 if tier == "quick" else 100000,
+                                     engine_out=eng_out)
+    except K.SoftTimeout:
+        res.update(verdict="inconclusive", reason="oracle-cap", detail="reference engine time box")
+        return res
     except K.OracleSkip as e:
         res.update(verdict="inconclusive", reason=e.reason.split(":")[0], detail=e.reason)
         return res
@@ -98,9 +105,22 @@ def run_case(case, tier):
     nontrivial = False
     sample_rows = []
     for g, ref in zip(goals, table):
+        left = budget - (time.time() - t_start)
+        if left < 1.5:
+            res["events"]["goal-skipped-time-box"] = res["events"].get("goal-skipped-time-box", 0) + 1
+            continue
         try:
-            cf, is_exact, recs = P.closed_form(program, rb, g)
+            with K.soft_timeout(left):
+                cf, is_exact, recs = P.closed_form(program, rb, g)
             res["events"]["RecurrenceSolver.get"] = res["events"].get("RecurrenceSolver.get", 0) + 1
+        except K.SoftTimeout:
+            res["events"]["goal-skipped-time-box"] = res["events"].get("goal-skipped-time-box", 0) + 1
+            # the interrupted analysis may have left partial state in the builder: start from a fresh one
+            try:
+                program, rb = P.prepare(case["text"])
+            except Exception:
+                break
+            continue
         except Exception as e:
             res["refusals"].append(P.refusal_key(e))
             continue
@@ -116,9 +136,10 @@ def run_case(case, tier):
         if len(sample_rows) < 2:
             sample_rows.append({"goal": P.monom_str(g), "closed_form": str(cf)[:200], "is_exact": bool(is_exact),
                                 "ref_values": [P.val_str(x) for x in ref[:4]]})
-    if case.get("cli") and compared_goals:
+    if case.get("cli") and compared_goals and budget - (time.time() - t_start) > 0.45 * budget:
         try:
-            cli_viol, ncmp = cli_compare(case, goals, table, values, N)
+            with K.soft_timeout(budget - (time.time() - t_start)):
+                cli_viol, ncmp = cli_compare(case, goals, table, values, N)
             res["events"]["polar.main"] = 1
             res["comparisons"] += ncmp
             for v in cli_viol:
@@ -126,7 +147,13 @@ def run_case(case, tier):
             res["violations"] += cli_viol
         except P.CliRefused as e:
             res["refusals"].append("cli:" + e.key)
+        except K.SoftTimeout:
+            res["events"]["cli-skipped-time-box"] = 1
+            P.reset_settings()
     if compared_goals == 0:
+        if res["events"].get("goal-skipped-time-box"):
+            res.update(verdict="inconclusive", reason="timeout", detail="no goal fitted the per-case time box")
+            return res
         res.update(verdict="inconclusive", reason="refused", refusal=(res["refusals"] or ["?"])[0])
         return res
     res["nontrivial"] = nontrivial
@@ -191,6 +218,17 @@ def cli_compare(case, goals, table, values, N):
         P.reset_settings()
     want = {str(sympy.sympify(P.monom_str(g))): i for i, g in enumerate(goals)}
     nsym = sympy.Symbol("n", integer=True)
+    # the numbering of generated names is process-wide: the CLI run names the abstraction probabilities _prob<k'> where the
+    # API run had _prob<k>; they are created in the same order
+    printed = sorted(set(re.findall(r"_prob(\d+)", out)), key=int)
+    have = sorted([k for k in values if re.fullmatch(r"_prob\d+", k)], key=lambda k: int(k[5:]))
+    if printed:
+        if len(printed) != len(have):
+            raise P.CliRefused("abstraction-symbols-not-matched")
+        values = dict(values)
+        vals = [values[h] for h in have]
+        for pnum, v in zip(printed, vals):
+            values["_prob" + pnum] = v
     for line in out.splitlines():
         line = line.strip()
         m = _ATN.match(line)
